@@ -679,7 +679,11 @@ def g_param(meta):
         return {"float": v, "npfloat": np.float64(v), "list": [v], "array": np.array([v])}[st]
     if gk == "vector":
         return np.array(P, dtype=float) if st != "list" else [float(v) for v in P]
-    if gk in ("densediag", "densefull"):
+    if gk in ("densediag", "densefull"):      # declaration styles of a dense matrix: ndarray, nested list, numpy.matrix
+        if st == "nested-list":
+            return [[float(v) for v in r] for r in P]
+        if st == "matrix":
+            return np.matrix(P, dtype=float)
         return np.array(P, dtype=float)
     if gk == "spdiag":
         M = spa.diags(np.array(P, dtype=float))
@@ -720,7 +724,7 @@ def g_observe(cuqi, meta):
                 elif via == "cond_mean":
                     d = G(None, **{form: val}, geometry=n)(mean=mean)
                 elif via == "callable":     # parameter = s_ * (value / 2), conditioned on s_ = 2 (exact in floats)
-                    half = val * 0.5 if not isinstance(val, list) else [v * 0.5 for v in val]
+                    half = val * 0.5 if not isinstance(val, list) else np.array(val, dtype=float) * 0.5
                     if isinstance(half, list):
                         half = np.array(half)
                     d = G(mean, **{form: (lambda s_: s_ * half)}, geometry=n)(s_=2.0)
@@ -1362,6 +1366,8 @@ def gaussian_cases(ctx, cuqi, state, cases, stats):
                                     if fr_solve_det(Mx, [Fraction(0)] * n)[1] != 0:
                                         break
                         meta["P"] = [[float(v) for v in r] for r in Mx]
+                    if gk in ("densediag", "densefull") and n > 1:
+                        meta["storage"] = ["array", "nested-list", "matrix"][counter % 3]
                     vias = ["direct"] + ([["cond_mean", "callable", "logd_mean"][counter % 3]] if gk in ("scalar", "vector", "densefull") else [])
                     for via in vias:
                         for method in (["logpdf", "logd", "pdf", "logupdf"] if via == "direct" else ["logpdf"]):
